@@ -6,13 +6,15 @@ CONSTANTS n1 = n1
  Byz = {}
  NV = 2
  Cands = {"A", "B"}
+ DecCands = {"A", "B"}
  ThrMinus = 0
  ExVerify = TRUE
  AggVerify = TRUE
  Agreement = TRUE
- MaxBad = 0
+ MaxBad = 1
  MaxCrash = 0
  ByzClaims = "own"
+ HonestBatches = "all"
 INVARIANTS Safety
 PROPERTIES StoredStable RejectKeeps
 VIEW View
